@@ -43,6 +43,30 @@ CLAIMED = {
         technique="symbolic execution (CrossHair/z3) of real parser+evaluator vs tree oracle, path-tree exhaustion",
         ref="3/C04",
     ),
+    "C06": dict(
+        text="Symbolic execution of the real serialize/deserialize: per condition a catalogue type, a seeded template "
+        "value (array lengths, union variants) and up to 2 (quick) / 3 (thorough) integer leaves made symbolic over three "
+        "times their type's range; serialize must equal the Specification encoder O-SERDES (stream as one integer), the "
+        "length must be in the bit length set, the round trip must return the cast-mode image, delimiter-header forms "
+        "agree. Byte/utf8 payloads are symbolic bytes/str of 0..4 units. Defaults and relaxed forms are checked "
+        "choice-exhaustively; floats on a fixed list (C boundary).",
+        note="The bit writer's slow path tests one bit at a time, so a symbolic leaf costs 2**bits paths; leaves wider "
+        "than 16 bits stay concrete in the quick tier. O-SERDES was validated against the real codec on 8400 random "
+        "cases during development. Shapes outside the catalogue are outside the claim.",
+        technique="symbolic execution (CrossHair/z3) of real codec vs arithmetic wire-format oracle",
+        ref="3/C06",
+    ),
+    "C07": dict(
+        text="Symbolic execution of the real deserialize on a SYMBOLIC byte string of fixed length (0..3 bytes for "
+        "byte-aligned catalogue shapes, 0..1 for shapes with sub-byte fields / nested delimited members): same value or "
+        "same rejection as the Specification decoder O-SERDES, only SerDesError/ValueError escape, accepted objects are "
+        "fixed points, zero extension and symbolic trailing junk change nothing. Every prefix x single-bit corruption of "
+        "valid representations is covered choice-exhaustively.",
+        note="The reader's slow path ORs single bits (CrossHair realises `|`), which costs 2**bits paths; hence the small "
+        "length bounds for sub-byte shapes. Float fields are excluded (struct.unpack is a C boundary).",
+        technique="symbolic execution (CrossHair/z3) of real decoder on symbolic bytes vs arithmetic oracle",
+        ref="3/C07",
+    ),
     "C11": dict(
         text="Symbolic execution of the real cross-definition checks on real Structure/Delimited/Service objects: "
         "majors, minors, port-IDs (present/absent) and extents are symbolic over their whole legal ranges; accepted "
